@@ -11,6 +11,8 @@ import PlasVerif.Driver.C20
 import PlasVerif.Driver.C03
 import PlasVerif.Driver.C10
 import PlasVerif.Driver.C11
+import PlasVerif.Driver.C13
+import PlasVerif.Driver.C14
 /-!
 Line-protocol driver: one request per line `<property> <stream> <payload…>`, one
 answer per line `<model output>\t<spec output or ->[\t<aux>]`.  Imports only `Model`,
@@ -34,6 +36,8 @@ def dispatch (line : String) : String :=
   | "C03" :: r => C03.handle r
   | "C10" :: r => C10.handle r
   | "C11" :: r => C11.handle r
+  | "C13" :: r => C13.handle r
+  | "C14" :: r => C14.handle r
   | _ => "bad-op"
 
 partial def loop (h : IO.FS.Stream) (out : IO.FS.Stream) : IO Unit := do
